@@ -401,17 +401,21 @@ pub fn gen_case_funcvars(r: &mut Rng, u: &Universe) -> Vec<Pair> {
     let p = flip(r, var(1), val.clone()); pairs.push(p);
     for i in 2..=links { let p = flip(r, var(i), var(i - 1)); pairs.push(p); }
     let name = *r.pick(&["add", "subtract", "multiply", "divide"]);
-    let other_arg = { let mut x = gen_num(r); if name == "divide" { if let SInteger(0) = x { x = SInteger(2); } } x };
+    // (every third time the neutral element, so that `$X = $X + 0` holds of the bound value)
+    let other_arg = if r.chance(1, 3) { if name == "add" || name == "subtract" { SInteger(0) } else { SInteger(1) } }
+                    else { let mut x = gen_num(r); if name == "divide" { if let SInteger(0) = x { x = SInteger(2); } } x };
     let (args, ground) = match r.below(3) {
         0 => (vec![var(links), other_arg.clone()], vec![val.clone(), other_arg]),
         1 => (vec![other_arg.clone(), var(links)], vec![other_arg, val.clone()]),
         _ => (vec![var(links), other_arg.clone(), var(1)], vec![val.clone(), other_arg, val.clone()]),
     };
     let f = Unifiable::SFunction{name: name.to_string(), terms: args};
-    let other = match r.below(5) {
+    let other = match r.below(6) {
         0 | 1 => match crate::refarith::eval_ref(name, &ground) { Some(v) => v, None => gen_num(r) },
         2 => gen_num(r),
         3 => var(u.nvars),
+        // the bound variable that is itself an argument of the function (seeded change C13r11: an "occurs check" that refused it)
+        4 => if r.chance(1, 2) { var(links) } else { var(1) },
         _ => gen_func(r, u, 0),
     };
     let p = flip(r, f, other); pairs.push(p);
